@@ -27,10 +27,14 @@ structure Cfg where
       the settings contain (a seeded defect: only when they contain constants / points / properties / agents —
       settings that carry only `runspecs` keep the memoised values of the earlier run) -/
   runResetsOnAnySettings : Bool := true
+  /-- `SdSimulation.change_equation` only rebinds the lambda; the values memoised for the changed equation at
+      earlier times stay (a seeded defect: it also empties that equation's memo, so its history is lost) -/
+  changeEquationKeepsMemo : Bool := true
 deriving DecidableEq, Repr
 
 def Cfg.good (c : Cfg) : Bool :=
-  c.sessionDtFromScenario && c.stepClockNormalised && c.stepFinalisesAll && c.runResetsOnAnySettings
+  c.sessionDtFromScenario && c.stepClockNormalised && c.stepFinalisesAll && c.runResetsOnAnySettings &&
+    c.changeEquationKeepsMemo
 
 /-- The abstract simulator: `val f e k` is the value of equation `e` at grid index `k` when the
 settings in force at grid index `i` are `f i`. -/
@@ -226,22 +230,26 @@ structure MSess (α : Type) where
 
 def mbegin {α : Type} (body : Nat → C08.Expr α) : MSess α := { body := body, memo := [], k := 0, log := [] }
 
-def mstep {α : Type} (fs : FinSet) (nEq : Nat) (kind : Nat → C08.Kind) (ops : C08.Ops α) (fuel : Nat)
+/-- the defective `change_equation`: the memo of every changed equation is emptied -/
+def dropChanged {α : Type} (m : C08.Memo α) (s : CSet α) : C08.Memo α :=
+  s.foldl (fun m p => C08.clearOwn m p.1) m
+
+def mstep {α : Type} (fs : FinSet) (keep : Bool) (nEq : Nat) (kind : Nat → C08.Kind) (ops : C08.Ops α) (fuel : Nat)
     (eqs : List Nat) (st : MSess α) (s : CSet α) : Option (MSess α) :=
   let body' := applySet st.body s
-  match evalList ops body' fuel st.k eqs st.memo with
+  match evalList ops body' fuel st.k eqs (if keep then st.memo else dropChanged st.memo s) with
   | none => none
   | some (m1, row) =>
       match evalList ops body' fuel st.k (finList fs nEq kind) m1 with
       | none => none
       | some (m2, _) => some { body := body', memo := m2, k := st.k + 1, log := st.log ++ [row] }
 
-def msteps {α : Type} (fs : FinSet) (nEq : Nat) (kind : Nat → C08.Kind) (ops : C08.Ops α) (fuel : Nat)
+def msteps {α : Type} (fs : FinSet) (keep : Bool) (nEq : Nat) (kind : Nat → C08.Kind) (ops : C08.Ops α) (fuel : Nat)
     (eqs : List Nat) : List (CSet α) → MSess α → Option (MSess α)
   | [], st => some st
   | s :: ss, st =>
-      match mstep fs nEq kind ops fuel eqs st s with
-      | some st1 => msteps fs nEq kind ops fuel eqs ss st1
+      match mstep fs keep nEq kind ops fuel eqs st s with
+      | some st1 => msteps fs keep nEq kind ops fuel eqs ss st1
       | none => none
 
 /-- the definitions in force at grid index `i` when the single steps carried the settings `ss` -/
